@@ -55,13 +55,16 @@ def translate():
     cn = rd("control/connectivity.go")
     ad = rd("component/outbound/dialer/alive_dialer_set.go")
     c = {}
+    notes = []      # shape anchors that are gone: the model may no longer be the code; the differential search still runs
     body = func_body(cc, r"func \(d \*Dialer\) markUnavailableInternal\(typ \*NetworkType, force bool, isTraffic bool\) collectionUpdate \{", "markUnavailableInternal")
     m = _need(re.search(r"threshold := (\d+)\s*\n\s*switch typ\.L4Proto \{\s*case consts\.L4ProtoStr_UDP:\s*if isTraffic \{(?:\s*//[^\n]*\n)*\s*threshold = (\d+)\s*\} else \{(?:\s*//[^\n]*\n)*\s*threshold = (\d+)\s*\}\s*case consts\.L4ProtoStr_TCP:\s*if isTraffic \{(?:\s*//[^\n]*\n)*\s*threshold = (\d+)\s*\}\s*\}", body),
               "threshold switch in markUnavailableInternal")
     c["thr_default"], c["thr_udp_traffic"], c["thr_udp_probe"], c["thr_tcp_traffic"] = (int(x) for x in m.groups())
     # the comparisons that use the threshold
-    _need(re.search(r"d\.trafficFailCount\[idx\]\.Add\(1\)\s*if int\(d\.trafficFailCount\[idx\]\.Load\(\)\) < threshold \{", body), "traffic counter comparison")
-    _need(re.search(r"d\.failCount\[idx\]\+\+\s*if d\.failCount\[idx\] < threshold \{", body), "probe counter comparison")
+    if not re.search(r"d\.trafficFailCount\[idx\]\.Add\(1\)\s*if int\(d\.trafficFailCount\[idx\]\.Load\(\)\) < threshold \{\s*alive = collection\.Alive\.Load\(\)", body):
+        notes.append("markUnavailableInternal: traffic counter comparison / keep-current-state shape is gone")
+    if not re.search(r"d\.failCount\[idx\]\+\+\s*if d\.failCount\[idx\] < threshold \{\s*alive = collection\.Alive\.Load\(\)", body):
+        notes.append("markUnavailableInternal: probe counter comparison / keep-current-state shape is gone")
     c["max_consecutive_failures"] = int(_need(re.search(r"maxConsecutiveFailures\s*=\s*(\d+)", sc), "maxConsecutiveFailures").group(1))
     _need(re.search(r"entry\.count\+\+\s*entry\.lastUpdated = now\s*if entry\.count >= maxConsecutiveFailures \{", sc), "recordProxyFailure comparison")
     for name in ("IdxDnsTcp4", "IdxDnsTcp6", "IdxDnsUdp4", "IdxDnsUdp6", "IdxTcp4", "IdxTcp6", "IdxUdp4", "IdxUdp6"):
@@ -96,7 +99,6 @@ def translate():
         c[name] = int(_need(re.search(r"\b%s\s*=\s*(?:uint32\()?(\d+)\)?" % name, cn), name).group(1))
     m = _need(re.search(r"outboundConnectivitySlotsPerOutbound\s*=\s*outboundConnectivitySlotsPerDomain \* (\d+)", cn), "SlotsPerOutbound")
     c["conn_domains"] = int(m.group(1))
-    notes = []
     if not re.search(r"return uint32\(outbound\)\*outboundConnectivitySlotsPerOutbound \+ domainIdx\*outboundConnectivitySlotsPerDomain \+ ipVersionIdx", cn):
         # the model's conn_key is no longer known to be the code's formula: reported as a broken tie unless the
         # differential run finds a failing input (every key the implementation computes is compared with the model and the spec)
@@ -209,6 +211,10 @@ def gen_case(rng, big=False, reload_p=0.35):
                     else:
                         ops.append(fail(rng.randrange(nd), rng.randrange(6), rng.choice(["check", "traffic"])))
                 ops.append(fail(n, dom, kind))
+            if rng.random() < 0.4:
+                # the type is probably dead now: failure reports through the other counters must not revive it
+                for _ in range(rng.choice([1, 1, 2])):
+                    ops.append(fail(n, dom, rng.choice([k for k in ("check", "trans", "traffic") if k != kind])))
         elif r < 0.56:
             ops.append({"op": "probe_ok", "n": n, "dom": dom, "alt": bool(rng.random() < 0.2)})
         elif r < 0.66:
@@ -279,6 +285,39 @@ def reload_family(full):
                 out.append({"dialers": [{"addr": ""} for _ in range(nd)],
                             "groups": [{"policy": pols[(gi + k) % 3], "members": ms, "offsets": [0] * len(ms), "oid": 2 + gi} for gi, ms in enumerate(groups)],
                             "tolerance": 0, "ops": ops, "family": "%s/%s/%s" % (name, pname, DOMS[fam[0]][:-1])})
+    return out
+
+
+def cross_counter_family(full):
+    """fixed boundary family: a node dies for a type through one counter (probe streak, transactional streak, traffic
+    streak, forced report, escalation), optionally followed by a reload hand-over (counters cleared), and then receives
+    failure reports through every counter - in particular those whose own streak is still below its threshold.  Only a
+    success may make the node alive again: alive flags, transition callbacks and the connectivity slot are compared per step."""
+    out = []
+    for dom in range(6):
+        udp = dom >= 2
+        thr_probe, thr_traffic = (3, 50) if udp else (1, 10)     # generator bias only (run lengths)
+        f = lambda kind, err="timeout": {"op": "fail", "n": 0, "dom": dom, "kind": kind, "err": err, "alt": False}
+        kills = [("probe", [f("check")] * thr_probe), ("trans", [f("trans")] * thr_probe), ("traffic", [f("traffic")] * thr_traffic),
+                 ("forced", [f("forced")]), ("escalation", None)]
+        for kname, kops in kills:
+            if kname == "escalation":
+                # three death transitions on the node's address: tcp4, tcp6 probes and one more type take all types down
+                kops = [{"op": "fail", "n": 0, "dom": 0, "kind": "check", "err": "refused", "alt": False},
+                        {"op": "fail", "n": 0, "dom": 1, "kind": "check", "err": "refused", "alt": False}] + \
+                       [{"op": "fail", "n": 0, "dom": 2, "kind": "forced", "err": "timeout", "alt": False},
+                        {"op": "probe_ok", "n": 0, "dom": 2, "alt": False}] * 0 + \
+                       [{"op": "fail", "n": 0, "dom": 3, "kind": "check", "err": "refused", "alt": False}] * 3
+            for with_reload in ((False, True) if (full or kname in ("probe", "forced", "traffic")) else (False,)):
+                orders = [["traffic", "check", "trans"], ["check", "traffic", "trans"], ["trans", "traffic", "check"]]
+                for order in (orders if full else [orders[(dom + len(out)) % 3]]):
+                    ops = list(kops) + ([{"op": "reload"}] if with_reload else []) + [f(k) for k in order] + [f("traffic", "canceled"), f("check", "canceled")]
+                    ops += [{"op": "probe_ok", "n": 0, "dom": dom, "alt": False}, f("traffic")]
+                    out.append({"dialers": [{"addr": "a1"}, {"addr": "a2"}],
+                                "groups": [{"policy": "min_last", "members": [0], "offsets": [0], "oid": 2 + dom},
+                                           {"policy": "min_avg10", "members": [0, 1], "offsets": [0, 0], "oid": 43 + dom}],
+                                "tolerance": 0, "ops": ops,
+                                "family": "cross_counter/%s/%s%s/%s" % (DOMS[dom], kname, "+reload" if with_reload else "", "-".join(order))})
     return out
 
 
@@ -552,15 +591,19 @@ def main(argv):
     args = vlib.main_args(argv)
     out = vlib.Outcome(PID, args.tier, args.seed)
     rng = vlib.rng_for(args.seed, PID)
-    n_cases = 110 if args.tier == "quick" else 3000
+    n_cases = 90 if args.tier == "quick" else 3000
     cov = {"obligations": 0, "discharged": 0, "checker_cmd": "", "trusted_base": [], "evaluations": 0, "distinct_nontrivial": 0,
            "rule": "", "samples": [], "traces_validated_against_impl": 0}
     out.coverage = cov
     try:
         consts = translate()
     except (AnchorMoved, OSError) as e:
-        out.violation("anchor", {"broken": "translator: anchor moved: %s" % e}, "the source shape the constants translator expects is gone: %s" % e, no_failing_input=True)
-        return out.finish()
+        # a constant can no longer be extracted: keep the last generated constants (if any) and still search for a failing
+        # input; the broken tie is reported in the no-failing-input form only if the search finds nothing
+        if not os.path.exists(os.path.join(vlib.COQ, "gen", "C16_Consts.v")):
+            out.violation("anchor", {"broken": "translator: anchor moved: %s" % e}, "the source shape the constants translator expects is gone: %s" % e, no_failing_input=True)
+            return out.finish()
+        consts = {"anchor_notes": ["translator: anchor moved: %s (constants of the previous run kept)" % e]}
     proof_ok, pinfo = vlib.proof_stage(out, PROPS, TARGETS)
     if consts.get("anchor_notes"):
         proof_ok = False
@@ -598,7 +641,7 @@ def main(argv):
             for n in sorted(os.listdir(cdir)):
                 if n.endswith(".json"):
                     corpus.append(json.load(open(os.path.join(cdir, n))))
-        family = reload_family(args.tier == "thorough")
+        family = reload_family(args.tier == "thorough") + cross_counter_family(args.tier == "thorough")
         corpus = corpus + family          # fixed inputs run first, like the corpus
         cases = corpus + [gen_case(rng, big=(args.tier == "thorough" and i % 3 == 0)) for i in range(n_cases)]
         all_err, all_res, sigs, fatal = {}, {}, [], None
@@ -699,7 +742,7 @@ def main(argv):
             out.violation("tie", what, "proof obligation or model correspondence no longer checks; no failing input found", no_failing_input=True)
         nontrivial = len(set(s for s in sigs if int(s[0]) > 0 and int(s[2]) > 0))
         cov.update(evaluations=n_eval, distinct_nontrivial=nontrivial, distinct_signatures=len(set(sigs)),
-                   rule="fixed reload family (2-3 groups x 2-4 nodes in all overlap shapes x all-dead / one-version-dead / one-alive per domain, then reload) + random histories over 1-4 nodes (shared / empty proxy addresses), 0-3 groups (3 latency policies, random, fixed; shared nodes; offsets; tolerance), "
+                   rule="fixed cross-counter family (death through probe / transactional / traffic streak, forced report or escalation, optionally a reload hand-over, then failures through every counter, ignorable errors, a success) + fixed reload family (2-3 groups x 2-4 nodes in all overlap shapes x all-dead / one-version-dead / one-alive per domain, then reload) + random histories over 1-4 nodes (shared / empty proxy addresses), 0-3 groups (3 latency policies, random, fixed; shared nodes; offsets; tolerance), "
                         "built from runs of probe / transactional / traffic failures of length threshold-2..threshold+2 with interruptions (success, ignorable error, skipped probe, other source), "
                         "forced reports, escalation bursts, suppression scopes and quiesce end, global reset, reloads; both spellings of each network type. "
                         "signature = (threshold deaths, escalations, revivals, suppressed failures, slot clears, reloads) saturated at 3; non-trivial = at least one threshold death and one revival",
